@@ -215,12 +215,15 @@ def run_one(m):
         res = dict(func=qual, line=lineno, mut=desc, verdict=verdict, first=first,
                    src=lines[lineno - 1].strip()[:140])
         if verdict == 'SURVIVED' and TESTS:
-            tp = subprocess.run(['/venv/bin/python', '-m', 'pytest', '-q', '-x', '-p', 'no:cacheprovider', '-n', '2'] + TESTS,
-                                cwd=d, env=dict(os.environ, PYTHONPATH=f'{d}/src:/verif/shim'), capture_output=True, text=True, timeout=1800)
-            tail = tp.stdout.strip().splitlines()[-1] if tp.stdout.strip() else ''
-            res['tests'] = 'pass' if tp.returncode == 0 else 'FAIL'
+            try:
+                tp = subprocess.run(['/venv/bin/python', '-m', 'pytest', '-q', '-x', '-p', 'no:cacheprovider', '-n', '2', '--timeout=120'] + TESTS,
+                                    cwd=d, env=dict(os.environ, PYTHONPATH=f'{d}/src:/verif/shim'), capture_output=True, text=True, timeout=900)
+                rc_t, tail = tp.returncode, (tp.stdout.strip().splitlines()[-1] if tp.stdout.strip() else '')
+            except subprocess.TimeoutExpired:
+                rc_t, tail = 1, 'tests timed out'
+            res['tests'] = 'pass' if rc_t == 0 else 'FAIL'
             res['tests_tail'] = tail[:160]
-            if tp.returncode != 0:
+            if rc_t != 0:
                 res['verdict'] = 'SURVIVED-BUT-TESTS-KILL'
         open(p, 'wb').write(bsource)
         return res
